@@ -215,11 +215,86 @@ def run(worker, nworkers):
         subprocess.run(["git", "-C", "/repo", "worktree", "remove", "--force", wt], capture_output=True)
 
 
-def report():
-    rows = []
+def relocate(site, line_text, src):
+    """The plan records line numbers of the tree it was made on; if /repo moved on since (a fix
+    commit inserted lines) the site is found again by the text of its line."""
+    kind, lineno, col, detail = site
+    lines = src.splitlines()
+    if lineno - 1 < len(lines) and lines[lineno - 1].strip()[:160] == line_text:
+        return site
+    hits = [i + 1 for i, l in enumerate(lines) if l.strip()[:160] == line_text]
+    if not hits:
+        return None
+    best = min(hits, key=lambda n: abs(n - lineno))
+    return (kind, best, col, detail)
+
+
+def rerun():
+    """Second pass: every mutant that survived or was inconclusive is tried again against the
+    checks as they are now (results-rerun.jsonl; the report prefers these)."""
+    rows = {}
     for f in sorted(os.listdir(OUT)):
-        if f.startswith("results-"):
-            rows += [json.loads(l) for l in open(os.path.join(OUT, f))]
+        if f.startswith("results-") and "rerun" not in f:
+            for l in open(os.path.join(OUT, f)):
+                r = json.loads(l)
+                rows[r["index"]] = r
+    todo = [r for r in rows.values() if r["status"] in ("survived", "inconclusive")]
+    wt = "/tmp/mut-rerun"
+    subprocess.run(["git", "-C", "/repo", "worktree", "remove", "--force", wt], capture_output=True)
+    subprocess.run(["git", "-C", "/repo", "worktree", "add", "-q", wt, "HEAD"], check=True)
+    res_path = os.path.join(OUT, "results-rerun.jsonl")
+    done = {json.loads(l)["index"] for l in open(res_path)} if os.path.exists(res_path) else set()
+    try:
+        for m in sorted(todo, key=lambda r: r["index"]):
+            if m["index"] in done:
+                continue
+            path = os.path.join(wt, m["file"])
+            orig = open(os.path.join("/repo", m["file"])).read()
+            site = relocate(tuple(m["site"]), m["line"], orig)
+            rec = {k: m[k] for k in ("index", "file", "site", "checks", "line")}
+            rec["first_pass"] = m["status"]
+            ap = None
+            if site is not None:
+                ap = Apply(site)
+                new = ap.visit(ast.parse(orig))
+            if site is None or not ap.done:
+                rec["status"] = "not-applied"
+            else:
+                ast.fix_missing_locations(new)
+                open(path, "w").write(ast.unparse(new) + "\n")
+                env = dict(os.environ, GSCRIB_VERIF_REPO=wt)
+                verdicts = {}
+                for c in m["checks"]:
+                    p = subprocess.run([os.path.join(VERIF, "vcheck"), c, "--tier", "quick"], cwd=VERIF, env=env,
+                                       capture_output=True, text=True)
+                    verdicts[c] = p.returncode
+                    if p.returncode == 1:
+                        break
+                rec["verdicts"] = verdicts
+                rec["status"] = ("detected" if 1 in verdicts.values() else
+                                 "inconclusive" if 2 in verdicts.values() else "survived")
+                open(path, "w").write(orig)
+            with open(res_path, "a") as f:
+                f.write(json.dumps(rec) + "\n")
+            print(m["index"], m["status"], "->", rec["status"], m["file"], m["site"], m["line"][:80], flush=True)
+    finally:
+        subprocess.run(["git", "-C", "/repo", "worktree", "remove", "--force", wt], capture_output=True)
+
+
+def report():
+    first = {}
+    for f in sorted(os.listdir(OUT)):
+        if f.startswith("results-") and "rerun" not in f:
+            for l in open(os.path.join(OUT, f)):
+                r = json.loads(l)
+                first[r["index"]] = r
+    rr = os.path.join(OUT, "results-rerun.jsonl")
+    if os.path.exists(rr):
+        for l in open(rr):
+            r = json.loads(l)
+            if r["status"] != "not-applied":
+                first[r["index"]] = r
+    rows = [first[k] for k in sorted(first)]
     import collections
     by = collections.Counter(r["status"] for r in rows)
     per_file = collections.defaultdict(collections.Counter)
@@ -245,5 +320,7 @@ if __name__ == "__main__":
         plan(int(sys.argv[2]), int(sys.argv[3]) if len(sys.argv) > 3 else 0)
     elif cmd == "run":
         run(int(sys.argv[2]), int(sys.argv[3]))
+    elif cmd == "rerun":
+        rerun()
     else:
         report()
